@@ -158,9 +158,11 @@ fn render_layout(toks: &[Tok], enders: &[String], rng: &mut Rng, mode: u8) -> St
     s
 }
 
+/// the statement enders the property names (not the live table: the live table is what is being checked)
+pub const DOC_ENDERS: &[&str] = &["Identifier", "Number", "StringLiteral", "True", "False", "Null", "RightParen", "RightBracket", "RightBrace", "Break", "Continue", "Return"];
+
 pub fn c06(ctx: &Ctx) -> PropResult {
-    // the statement enders the property names (not the live table: the live table is what is being checked)
-    let enders: Vec<String> = ["Identifier", "Number", "StringLiteral", "True", "False", "Null", "RightParen", "RightBracket", "RightBrace", "Break", "Continue", "Return"].iter().map(|s| s.to_string()).collect();
+    let enders: Vec<String> = DOC_ENDERS.iter().map(|s| s.to_string()).collect();
     let mut rng = mk_rng(ctx.seed, 6);
     let mut programs = corpus_programs();
     // identifiers that begin with a keyword, at the start of lines after every statement-ending token
@@ -854,6 +856,10 @@ pub fn c11(ctx: &Ctx) -> PropResult {
             }
         }
     }
+    // nested targets and reads: the label is the bracketed index that fails, at whichever level
+    for (src, label) in crate::props6::nested_index_error_family() {
+        cases.push(run_case(src, "runtime-error").aux(label));
+    }
     // every library procedure, every argument position, every kind of value there (written with and without commas)
     for src in crate::props6::native_argument_label_family(&extract::registry()) {
         cases.push(run_case(src, "native-argument-error"));
@@ -964,7 +970,7 @@ pub fn c11(ctx: &Ctx) -> PropResult {
     let stats = run_cases(&ctx.driver, cases, &oracle, &no_known, ctx.threads);
     PropResult {
         stats,
-        rule: "22 failing expressions (every runtime-error kind: arithmetic and type errors, division / MOD by zero, undefined variable / procedure, index out of range / of wrong type / on a non-indexable, wrong argument count, argument casts, INSERT / REMOVE range) x 10 expression / statement contexts (nested in arithmetic, conditions, list literals, call arguments, loops, recursion depth 3), loop-header and indexed-assignment errors, 17 lexical / syntactic errors, random programs; every source prefixed with random noise (comments with 2-, 3- and 4-byte characters, blank lines, strings containing newlines); implementation-only oracle: every label inside the source on character boundaries, the labelled text is the construct the property names for that error kind, earlier output intact; error spans compared with the model; non-trivial = a diagnostic was produced; every library procedure x argument position x twelve values (some written with commas), the other arguments type-correct, plain and written with commas".into(),
+        rule: "22 failing expressions (every runtime-error kind: arithmetic and type errors, division / MOD by zero, undefined variable / procedure, index out of range / of wrong type / on a non-indexable, wrong argument count, argument casts, INSERT / REMOVE range) x 10 expression / statement contexts (nested in arithmetic, conditions, list literals, call arguments, loops, recursion depth 3), loop-header and indexed-assignment errors, 17 lexical / syntactic errors, random programs; every source prefixed with random noise (comments with 2-, 3- and 4-byte characters, blank lines, strings containing newlines); implementation-only oracle: every label inside the source on character boundaries, the labelled text is the construct the property names for that error kind, earlier output intact; error spans compared with the model; non-trivial = a diagnostic was produced; every library procedure x argument position x twelve values (some written with commas), the other arguments type-correct, plain and written with commas; two- and three-level set targets and reads with the failing index at each level".into(),
         exhaustive: false,
         notes: vec![],
     }
